@@ -154,6 +154,32 @@ fn unwound_block_restores_the_slip_it_spent() {
     }
 }
 
+/// C19: a light client's wallet processes a lite block in which omitted transactions are merged into one placeholder that
+/// stands for several transactions — the position it records for its own output must still be the ledger's position
+#[test]
+fn lite_block_positions_are_the_ledgers() {
+    use crate::core::consensus::block::Block;
+    let (pk, sk) = generate_keys();
+    for repl in 1..5u32 {
+        let mut w = Wallet::new(sk, pk);
+        let mut b = Block::new(); b.id = 7;
+        // placeholder standing for `repl` omitted transactions, then a payment to the wallet: its ledger ordinal is `repl`
+        let mut spv = Transaction::default(); spv.transaction_type = TransactionType::SPV; spv.txs_replacements = repl; spv.generate_hash_for_signature();
+        b.transactions.push(spv);
+        let mut pay = Transaction::default();
+        let mut o = Slip::default(); o.public_key = pk; o.amount = 500; o.block_id = 7; o.tx_ordinal = repl as u64; o.slip_index = 0; o.generate_utxoset_key();
+        pay.to.push(o.clone()); pay.generate_hash_for_signature();
+        b.transactions.push(pay);
+        w.on_chain_reorganization(&b, true, 100);
+        match w.slips.get(&o.utxoset_key) {
+            None => witness(format!("placeholder for {} transactions followed by a payment to the wallet: the output was not recorded", repl)),
+            Some(ws) => if ws.block_id != 7 || ws.tx_ordinal != repl as u64 || ws.slip_index != 0 {
+                witness(format!("lite block 7 = [placeholder standing for {} transactions, payment to the wallet]: the wallet records its output as block {}, transaction {}, slip {} — the ledger has it at transaction {}; inputs built from this record name a ledger key that does not exist", repl, ws.block_id, ws.tx_ordinal, ws.slip_index, repl)); }
+        }
+        if let Err(e) = balance_matches(&w) { witness(e); }
+    }
+}
+
 /// C10/C12: the wallet file decoder is fed whatever is on disk (RustIOHandler::load_wallet passes the file's bytes
 /// unchecked); a truncated or torn file must not abort the node
 #[test]
